@@ -7,7 +7,7 @@ for b in "$@"; do
   git merge --no-edit $b >/tmp/merge_$b.log 2>&1
   python3 tools/resolve_merge.py >/dev/null 2>&1
   for f in $(git status --short | grep "^UU\|^AA" | cut -c4-); do
-    case $f in seeded/*/meta.json) python3 - "$f" <<'P'
+    case $f in automut/*.json) python3 tools/resolve_automut.py "$f";; seeded/*/meta.json) python3 - "$f" <<'P'
 import json,subprocess,sys
 f=sys.argv[1]
 def show(st): return json.loads(subprocess.run(["git","show",f":{st}:{f}"],capture_output=True,text=True).stdout)
